@@ -717,7 +717,9 @@ func (c *decodeCtx) callUnmarshaler(n *docNode, t types.Type, cell *value, mf *t
 	if x.decide(n.kindIs(kAbsent)) {
 		return nil
 	}
+	progMu.RLock()
 	fn := c.i.prog.FuncValue(mf)
+	progMu.RUnlock()
 	if fn == nil {
 		panic(unsupported("no SSA for " + mf.FullName()))
 	}
